@@ -58,6 +58,8 @@ type Exec struct {
 	keepLen    bool
 	heapDefs   map[string]heapDef
 	initialHeaps map[string]string
+	initialTrace string
+	initialStore string
 	totalSteps int
 	stepBudget int
 	budgetHit  bool
